@@ -1,4 +1,342 @@
-//! C14 — stub, replaced when the property's harness lands.
-use crate::util::{Em, Rng};
+//! C14 — decision trees: structure walk through the public API (`root_node`, `TreeNode::{split,
+//! children, prediction, depth, is_leaf}`, `feature_importance`, `predict`) compared with the Lean
+//! model, and the property's clauses recomputed from first principles on the fitted tree.
+//!
+//! Inputs are lattice data: features `int / 2^xd`, weights `int / 2^wd`, limits in quarter
+//! units, so every weight sum, every `<`/`<=` on weights and every midpoint is exact; only the f32
+//! impurity arithmetic rounds (see Drv/C14.lean for how the comparison handles that).
+use crate::util::*;
+use linfa::prelude::*;
+use linfa::Label;
+use linfa_trees::{DecisionTree, SplitQuality, TreeNode};
+use ndarray::{Array1, Array2};
 
-pub fn run(_em: &mut Em, _rng: &mut Rng) {}
+#[derive(Clone)]
+struct Case {
+    entropy: bool,
+    md: Option<usize>,
+    mws4: u32,
+    mwl4: u32,
+    mid: f64,
+    xd: u32,
+    xs: Vec<Vec<i64>>,
+    ys: Vec<usize>,
+    ws: Option<Vec<i64>>,
+    wd: u32,
+    pr: Vec<Vec<i64>>,
+    p: usize,
+    /// label type: 0 usize, 1 bool, 2 String
+    lt: u8,
+}
+
+impl Case {
+    fn op(&self) -> String {
+        let l2 = |v: &Vec<Vec<i64>>| if v.is_empty() { String::new() } else { list2(v.iter().map(|r| r.iter()), |x| x.to_string()) };
+        format!(
+            "fit crit={} md={} mws4={} mwl4={} mid={} xd={} p={} xs={} ys={} ws={} wd={} pr={} lt={}",
+            if self.entropy { "e" } else { "g" },
+            self.md.map(|d| d.to_string()).unwrap_or("none".into()),
+            self.mws4,
+            self.mwl4,
+            hex64(self.mid),
+            self.xd,
+            self.p,
+            l2(&self.xs),
+            list(self.ys.iter(), |y| y.to_string()),
+            self.ws.as_ref().map(|w| list(w.iter(), |x| x.to_string())).unwrap_or("none".into()),
+            self.wd,
+            l2(&self.pr),
+            self.lt
+        )
+    }
+    fn x(&self, i: usize, f: usize) -> f64 {
+        self.xs[i][f] as f64 / (1u64 << self.xd) as f64
+    }
+    fn w(&self, i: usize) -> f64 {
+        match &self.ws {
+            Some(w) => w[i] as f64 / (1u64 << self.wd) as f64,
+            None => 1.0,
+        }
+    }
+    fn class(&self) -> String {
+        format!("crit={};weights={}", if self.entropy { "entropy" } else { "gini" }, if self.ws.is_some() { "yes" } else { "no" })
+    }
+}
+
+fn impurity(entropy: bool, fr: &[f64]) -> f64 {
+    let n: f64 = fr.iter().sum();
+    if entropy {
+        fr.iter().map(|x| x / n).map(|x| if x > 0.0 { -x * x.log2() } else { 0.0 }).sum()
+    } else {
+        1.0 - fr.iter().map(|x| (x / n) * (x / n)).sum::<f64>()
+    }
+}
+
+struct Walk<'a, L> {
+    c: &'a Case,
+    k: usize,
+    dec: &'a dyn Fn(&L) -> Option<usize>,
+    toks: Vec<String>,
+    tl: bool,
+    has_split: bool,
+    /// leaf prediction reached by every training row (fit-time routing)
+    leaf_pred: Vec<Option<usize>>,
+}
+
+impl<'a, L: Label> Walk<'a, L> {
+    fn freq(&self, rows: &[usize]) -> Vec<f64> {
+        let mut f = vec![0.0; self.k];
+        for &i in rows {
+            f[self.c.ys[i]] += self.c.w(i);
+        }
+        f
+    }
+    fn go(&mut self, ctx: &mut Ctx, node: &TreeNode<f64, L>, rows: Vec<usize>, depth: usize) {
+        let c = self.c;
+        let class = c.class();
+        ctx.require(node.depth() == depth, "depth_field", &class, || format!("node at depth {} reports depth {}", depth, node.depth()));
+        if let Some(md) = c.md {
+            ctx.require(depth <= md, "max_depth", &class, || format!("node at depth {} with max_depth {}", depth, md));
+        }
+        let ch = node.children();
+        let (l, r) = (ch[0].as_ref(), ch[1].as_ref());
+        let (f, s, d) = node.split();
+        let dtok = format!("{}{}", if self.tl { "~" } else { "" }, hex64c(d));
+        if node.is_leaf() {
+            let pred = node.prediction();
+            let pi = pred.as_ref().and_then(|p| (self.dec)(p));
+            ctx.require(pi.is_some(), "seen_label", &class, || format!("leaf predicts {:?}, not a training label", pred));
+            let pidx = pi.unwrap_or(usize::MAX);
+            ctx.require(l.is_none() && r.is_none(), "two_children", &class, || format!("leaf-flagged node at depth {} keeps a child (left {}, right {})", depth, l.is_some(), r.is_some()));
+            ctx.require(!rows.is_empty(), "leaf_nonempty", &class, || format!("no training row reaches the leaf at depth {}", depth));
+            if pi.is_some() && !rows.is_empty() {
+                let fr = self.freq(&rows);
+                let mx = fr.iter().cloned().fold(f64::MIN, f64::max);
+                ctx.require(fr[pidx] == mx, "leaf_mode", &class, || format!("leaf at depth {} predicts class {} with weight {}, class weights {:?}", depth, pidx, fr[pidx], fr));
+            }
+            for &i in &rows {
+                self.leaf_pred[i] = pi;
+            }
+            if l.is_none() && r.is_none() {
+                self.toks.extend(["L".to_string(), pidx.to_string(), node.depth().to_string()]);
+            } else {
+                let (side, child) = if let Some(x) = l { ("l", x) } else { ("r", r.unwrap()) };
+                self.toks.extend(["H".to_string(), f.to_string(), hex64(s), dtok, pidx.to_string(), node.depth().to_string(), side.to_string()]);
+                // the kept child is walked for the correspondence only
+                let mut sub = Walk { c, k: self.k, dec: self.dec, toks: vec![], tl: self.tl, has_split: false, leaf_pred: vec![None; c.xs.len()] };
+                let mut dummy = Ctx { fails: vec![], trivial: false };
+                sub.go(&mut dummy, child, rows.clone(), depth + 1);
+                self.toks.extend(sub.toks);
+            }
+            return;
+        }
+        self.has_split = true;
+        self.toks.extend(["N".to_string(), f.to_string(), hex64(s), dtok, node.depth().to_string()]);
+        ctx.require(l.is_some() && r.is_some(), "two_children", &class, || format!("split node at depth {} lacks a child", depth));
+        ctx.require(f < c.p, "feature_in_range", &class, || format!("feature index {} of {}", f, c.p));
+        if f >= c.p {
+            return;
+        }
+        let mws = c.mws4 as f64 / 4.0;
+        let mwl = c.mwl4 as f64 / 4.0;
+        ctx.require(rows.len() as f64 >= mws, "min_weight_split", &class, || format!("split node at depth {} reached by {} rows, min_weight_split {}", depth, rows.len(), mws));
+        // rows between threshold and next value would be routed differently from the sweep's
+        // partition; a row *on* the threshold is on the left at fit and predict time (`<=`)
+        let lrows: Vec<usize> = rows.iter().copied().filter(|&i| c.x(i, f) <= s).collect();
+        let rrows: Vec<usize> = rows.iter().copied().filter(|&i| !(c.x(i, f) <= s)).collect();
+        let (fp, fl, fr) = (self.freq(&rows), self.freq(&lrows), self.freq(&rrows));
+        let (wp, wl, wr): (f64, f64, f64) = (fp.iter().sum(), fl.iter().sum(), fr.iter().sum());
+        ctx.require(wl >= mwl && wr >= mwl, "min_weight_leaf", &class, || format!("split at depth {} leaves weight {} / {} , min_weight_leaf {}", depth, wl, wr, mwl));
+        if wl > 0.0 && wr > 0.0 {
+            let actual = impurity(c.entropy, &fp) - (wl / wp * impurity(c.entropy, &fl) + wr / wp * impurity(c.entropy, &fr));
+            ctx.require((actual - d).abs() <= 1e-5, "decrease_actual", &class, || format!("split at depth {} feature {} threshold {} reports decrease {} but the {} decrease is {}", depth, f, s, d, if c.entropy { "entropy" } else { "gini" }, actual));
+        }
+        ctx.require(d >= c.mid, "decrease_ge_min", &class, || format!("split at depth {} reports decrease {} < min_impurity_decrease {}", depth, d, c.mid));
+        if let Some(x) = l {
+            self.go(ctx, x, lrows, depth + 1);
+        }
+        if let Some(x) = r {
+            self.go(ctx, x, rrows, depth + 1);
+        }
+    }
+}
+
+fn fit_case<L: Label + std::fmt::Debug>(c: &Case, ctx: &mut Ctx, enc: &dyn Fn(usize) -> L, dec: &dyn Fn(&L) -> Option<usize>) -> String {
+    let n = c.xs.len();
+    let class = c.class();
+    let k = c.ys.iter().copied().max().map(|m| m + 1).unwrap_or(0);
+    let recs = Array2::from_shape_fn((n, c.p), |(i, j)| c.x(i, j));
+    let tg: Array1<L> = Array1::from_shape_fn(n, |i| enc(c.ys[i]));
+    let mut ds = DatasetBase::new(recs.clone(), tg);
+    if c.ws.is_some() {
+        ds = ds.with_weights(Array1::from_shape_fn(n, |i| c.w(i) as f32));
+    }
+    let params = DecisionTree::<f64, L>::params()
+        .split_quality(if c.entropy { SplitQuality::Entropy } else { SplitQuality::Gini })
+        .max_depth(c.md)
+        .min_weight_split(c.mws4 as f32 / 4.0)
+        .min_weight_leaf(c.mwl4 as f32 / 4.0)
+        .min_impurity_decrease(c.mid);
+    let tree = match params.fit(&ds) {
+        Ok(t) => t,
+        Err(e) => return format!("err {:?}", e).replace(' ', "_"),
+    };
+    let mut distinct: Vec<usize> = c.ys.clone();
+    distinct.sort();
+    distinct.dedup();
+    let tl = c.entropy || distinct.len() > 2;
+    let mut w = Walk { c, k, dec, toks: vec![], tl, has_split: false, leaf_pred: vec![None; n] };
+    w.go(ctx, tree.root_node(), (0..n).collect(), 0);
+    // importances
+    let imp = tree.feature_importance();
+    if w.has_split {
+        let s: f64 = imp.iter().sum();
+        ctx.require(imp.iter().all(|x| *x >= 0.0) && (s - 1.0).abs() <= 1e-9, "importances", &class, || format!("importances {:?} (sum {})", imp, s));
+    }
+    ctx.require(imp.len() == c.p, "importances_len", &class, || format!("{} importances for {} features", imp.len(), c.p));
+    // prediction of the training rows = prediction of the leaf they were assigned while fitting
+    let np = c.pr.len();
+    let all = Array2::from_shape_fn((n + np, c.p), |(i, j)| if i < n { c.x(i, j) } else { c.pr[i - n][j] as f64 / (1u64 << c.xd) as f64 });
+    let pred = tree.predict(&all);
+    let pidx: Vec<Option<usize>> = pred.iter().map(|p| dec(p)).collect();
+    for i in 0..n {
+        ctx.require(pidx[i].is_some() && pidx[i] == w.leaf_pred[i], "routing_consistent", &class, || format!("row {} predicted {:?}, the leaf it was assigned while fitting predicts {:?}", i, pidx[i], w.leaf_pred[i]));
+    }
+    for i in 0..n + np {
+        ctx.require(pidx[i].is_some(), "seen_label", &class, || format!("prediction {:?} is not a training label", pred[i]));
+    }
+    format!(
+        "ok tree={} imp={} pred={} margin=~{}",
+        w.toks.join(","),
+        list(imp.iter(), |x| format!("{}{}", if tl { "~" } else { "" }, hex64c(*x))),
+        list(pidx.iter(), |x| x.map(|v| v.to_string()).unwrap_or("?".into())),
+        hex64(1.0)
+    )
+}
+
+fn run_case(em: &mut Em, c: Case) {
+    let n = c.xs.len();
+    em.count(&format!("n:{}", if n == 0 { "0" } else if n <= 4 { "1-4" } else if n <= 10 { "5-10" } else if n <= 20 { "11-20" } else { "21+" }));
+    let mut dl = c.ys.clone();
+    dl.sort();
+    dl.dedup();
+    em.count(&format!("classes:{}", dl.len()));
+    em.count(if c.entropy { "crit:entropy" } else { "crit:gini" });
+    em.count(if c.ws.is_some() { "weights:yes" } else { "weights:no" });
+    em.count(&format!("label_type:{}", ["usize", "bool", "string"][c.lt as usize]));
+    em.count(&format!("max_depth:{}", c.md.map(|d| if d >= 4 { "4+".to_string() } else { d.to_string() }).unwrap_or("none".into())));
+    em.count(&format!("mwl4:{}", c.mwl4));
+    let op = c.op();
+    let class = c.class();
+    let seen: Vec<usize> = dl.clone();
+    let demanded = n >= 1 && c.mwl4 > 0;
+    let body = move |ctx: &mut Ctx| -> String {
+        match c.lt {
+            0 => {
+                let s2 = seen.clone();
+                fit_case::<usize>(&c, ctx, &|k| k * 7 + 3, &move |l: &usize| if *l >= 3 && (*l - 3) % 7 == 0 && s2.contains(&((*l - 3) / 7)) { Some((*l - 3) / 7) } else { None })
+            }
+            1 => {
+                let s2 = seen.clone();
+                fit_case::<bool>(&c, ctx, &|k| k == 1, &move |l: &bool| if s2.contains(&(*l as usize)) { Some(*l as usize) } else { None })
+            }
+            _ => {
+                let s2 = seen.clone();
+                fit_case::<String>(&c, ctx, &|k| format!("cls-{}", (b'f' - k as u8) as char), &move |l: &String| {
+                    let b = l.as_bytes();
+                    if b.len() == 5 && l.starts_with("cls-") && b[4] <= b'f' && s2.contains(&((b'f' - b[4]) as usize)) { Some((b'f' - b[4]) as usize) } else { None }
+                })
+            }
+        }
+    };
+    // the property promises a tree for every labelled dataset and positive leaf weight; with
+    // min_weight_leaf = 0 (or no rows) the fit may stop at an assert — compared, not demanded
+    if demanded {
+        em.case_valid(op, &class, body)
+    } else {
+        em.case(op, body)
+    }
+}
+
+fn gen_case(rng: &mut Rng, big: bool, stream: u8) -> Case {
+    let nmax = if big { 28 } else { 11 };
+    let n = match stream {
+        3 => 0,
+        _ => 1 + rng.below(nmax),
+    };
+    let p = 1 + rng.below(3);
+    let k = 2 + rng.below(5); // 2..6 classes
+    let lt = if k == 2 { *rng.pick(&[0u8, 1, 2]) } else { *rng.pick(&[0u8, 2]) };
+    let (xd, vals): (u32, Vec<i64>) = match stream {
+        // dyadic values around the 1e-5 equal-value skip: one unit = 2^-20 ≈ 9.5e-7
+        1 => (20, vec![0, 10, 11, 21, 32, 42, 1 << 20, (1 << 20) + 10, (1 << 20) + 21, -11, -(1 << 19)]),
+        // neighbouring doubles at magnitude 2^40 (spacing 2^-12 > 1e-5): the midpoint of two
+        // neighbours is not representable and rounds onto one of them
+        4 => (12, vec![1 << 52, (1 << 52) + 1, (1 << 52) + 2, (1 << 52) + 3, (1 << 52) + 5, (1 << 52) + 8, (1 << 52) + 9]),
+        _ => {
+            let r = *rng.pick(&[2i64, 3, 4, 7]);
+            (0, (0..=r).map(|v| v - (r / 3)).collect())
+        }
+    };
+    let xs: Vec<Vec<i64>> = (0..n).map(|_| (0..p).map(|_| *rng.pick(&vals)).collect()).collect();
+    // labels: mostly a noisy function of the features so that trees have several levels
+    let mode = rng.below(4);
+    let ys: Vec<usize> = (0..n)
+        .map(|i| match mode {
+            0 => rng.below(k),
+            1 => ((xs[i][0].rem_euclid(1000) as usize) + if rng.chance(1, 5) { rng.below(k) } else { 0 }) % k,
+            2 => (xs[i].iter().sum::<i64>().rem_euclid(1000) as usize + if rng.chance(1, 6) { 1 } else { 0 }) % k,
+            _ => if xs[i][p - 1] > vals[vals.len() / 2] { rng.below(2) } else { (2 + rng.below(k - 1)) % k },
+        })
+        .collect();
+    let (ws, wd) = if stream == 2 {
+        (None, 0) // tie stream: equal weights, duplicates with conflicting labels
+    } else if rng.chance(1, 2) {
+        (None, 0)
+    } else {
+        (Some((0..n).map(|_| rng.range(1, 5)).collect()), rng.below(2) as u32)
+    };
+    let md = if stream == 4 { Some(1 + rng.below(3)) } else { *rng.pick(&[None, None, Some(0usize), Some(1), Some(2), Some(3), Some(5)]) };
+    let mws4 = *rng.pick(&[8u32, 8, 0, 4, 10, 12, 20]);
+    let mwl4 = if rng.chance(1, 25) { 0 } else { *rng.pick(&[4u32, 4, 1, 2, 6, 8, 12]) };
+    let mid = *rng.pick(&[1e-5, 1e-5, f64::EPSILON, 0.01, 0.1, 0.25, 0.3, 0.5]);
+    let np = rng.below(4);
+    let mut pr: Vec<Vec<i64>> = (0..np).map(|_| (0..p).map(|_| *rng.pick(&vals) + if stream == 4 { 0 } else { rng.range(-1, 1) }).collect()).collect();
+    if xd == 0 && n > 0 {
+        // probes at doubled resolution are not representable with xd = 0; probe the data values and neighbours only
+        pr.push(xs[rng.below(n)].clone());
+    }
+    Case { entropy: rng.chance(2, 5), md, mws4, mwl4, mid, xd, xs, ys, ws, wd, pr, p, lt }
+}
+
+pub fn run(em: &mut Em, rng: &mut Rng) {
+    let big = em.thorough();
+    // fixed corner cases first
+    let base = Case { entropy: false, md: None, mws4: 8, mwl4: 4, mid: 1e-5, xd: 0, xs: vec![], ys: vec![], ws: None, wd: 0, pr: vec![], p: 1, lt: 0 };
+    let mk = |xs: Vec<Vec<i64>>, ys: Vec<usize>| Case { p: xs.first().map(|r| r.len()).unwrap_or(1), xs, ys, ..base.clone() };
+    // one row; constant feature; duplicates with conflicting labels; separable; 4-row modal tie
+    run_case(em, mk(vec![vec![1]], vec![0]));
+    run_case(em, mk(vec![vec![1], vec![1], vec![1]], vec![0, 1, 1]));
+    run_case(em, mk(vec![vec![0], vec![0], vec![1], vec![1]], vec![0, 1, 1, 1]));
+    run_case(em, mk(vec![vec![0], vec![1], vec![2], vec![3]], vec![0, 0, 1, 1]));
+    run_case(em, mk(vec![vec![0], vec![0], vec![1], vec![1]], vec![0, 1, 0, 1]));
+    run_case(em, Case { md: Some(0), ..mk(vec![vec![0], vec![1], vec![2], vec![3]], vec![0, 0, 1, 1]) });
+    run_case(em, Case { mwl4: 0, ..mk(vec![vec![0, 1], vec![1, 0], vec![2, 3], vec![3, 1], vec![4, 0]], vec![0, 1, 0, 1, 2]) });
+    // witnesses of the two repaired findings (neighbouring doubles at 2^40: the midpoint rounds
+    // onto the lower / the upper value)
+    let b52 = 1i64 << 52;
+    run_case(em, Case { md: Some(1), xd: 12, ..mk(vec![vec![b52], vec![b52], vec![b52 + 1], vec![b52 + 1]], vec![0, 0, 1, 1]) });
+    run_case(em, Case { md: Some(1), xd: 12, ..mk(vec![vec![b52 + 1], vec![b52 + 1], vec![b52 + 2], vec![b52 + 2]], vec![0, 0, 1, 1]) });
+    let total = if big { 40000 } else { 3000 };
+    for i in 0..total {
+        let stream = match i % 20 {
+            0..=11 => 0u8,
+            12..=15 => 1,
+            16..=18 => 2,
+            _ => if i % 200 == 19 { 3 } else { 4 },
+        };
+        em.count(&format!("stream:{}", ["lattice", "dyadic_eps", "modal_tie", "empty", "adjacent_floats"][stream as usize]));
+        let c = gen_case(rng, big && i % 3 != 0, stream);
+        run_case(em, c);
+    }
+}
